@@ -63,6 +63,26 @@ PROBES = [
     ("aas_core_codegen/golang/lib/_generate_types.py", "_verify_structure_name_collisions", ["C21"]),
     ("aas_core_codegen/cpp/common.py", "bytes_literal", ["C19"]),
     ("aas_core_codegen/intermediate/_hierarchy.py", "map_symbol_table_to_ontology", ["C05", "C06"]),
+    ("aas_core_codegen/intermediate/_translate.py", "_verify_only_simple_type_patterns", ["C06", "C02"]),
+    ("aas_core_codegen/intermediate/_translate.py", "_verify_constructor_arguments_and_properties_match", ["C06"]),
+    ("aas_core_codegen/intermediate/_translate.py", "_second_pass_to_stack_serializations_in_place", ["C05"]),
+    ("aas_core_codegen/intermediate/type_inference.py", "_Inferrer.transform_for_range", ["C07", "C04"]),
+    ("aas_core_codegen/intermediate/type_inference.py", "_Inferrer.transform_comparison", ["C07", "C04"]),
+    ("aas_core_codegen/cpp/lib/_generate_pattern.py", "_render_comment_re_node", ["C20", "C18"]),
+    ("aas_core_codegen/golang/common.py", "string_literal", ["C19", "C20"]),
+    ("aas_core_codegen/python/common.py", "string_literal", ["C19", "C30"]),
+    ("aas_core_codegen/csharp/transpilation.py", "Transpiler.transform_joined_str", ["C09"]),
+    ("aas_core_codegen/python/transpilation.py", "Transpiler._transform_add_or_sub", ["C08"]),
+    ("aas_core_codegen/python/lib/_generate_xmlization.py", "_generate_write_cls_as_sequence", ["C10"]),
+    ("aas_core_codegen/python/lib/_generate_types.py", "_generate_class", ["C29"]),
+    ("aas_core_codegen/smoke/main.py", "execute", ["C28", "C03"]),
+    ("aas_core_codegen/python/main.py", "execute", ["C03", "C02"]),
+    ("aas_core_codegen/main.py", "execute", ["C03", "C23"]),
+    ("aas_core_codegen/parse/_translate.py", "source_to_atok", ["C01"]),
+    ("aas_core_codegen/parse/retree/_parse.py", "_parse_concatenation", ["C16", "C17"]),
+    ("aas_core_codegen/infer_for_schema/_inline.py", "tightening_steps_from_other_to_that_constraints", ["C12", "C22"]),
+    ("aas_core_codegen/infer_for_schema/_inline.py", "_merge_len_constraints", ["C15", "C02"]),
+    ("aas_core_codegen/yielding/linear.py", "_linearize_for", ["C26"]),
 ]
 
 
